@@ -2,7 +2,6 @@ package main
 
 import (
 	"fmt"
-	"go/ast"
 	"go/token"
 	"go/types"
 	"os"
@@ -22,7 +21,8 @@ func init() {
 			"R2 the two level arguments of ValidatePacket are the loaded snapshot's Validation_level_legacy.Level / Validation_level_m20.Level, and those snapshot fields are filled from the equally named configuration fields; " +
 			"R3 the level-name tables map each documented name to the constant of the same name, are written through a pointer receiver into the Level field, agree with the tables in docs/validation.md, and the defaults of NewConfig are the rows marked (default); " +
 			"R4 IncNumInvalid increments inbound and invalid once each; " +
-			"R5 the bad-metrics tracker records every reported line under its name with the rejected text and the reason, and expires records only after maxAge.",
+			"R5 the bad-metrics tracker records every reported line under its name with the rejected text and the reason, and expires records only after maxAge; " +
+			"R6 the configured levels survive runtime table changes: no TableConfig value is assembled from a literal that leaves fields out (C19.R5).",
 		NotDecided: "the validation grammar itself (third-party carbon20 package, pinned by go.sum); retention timing of the bad-metrics report; TOML decoding.",
 		Rules: []RuleDef{
 			{ID: "C02.R1", Min: 1, Doc: "gate: path enumeration of every input.Dispatcher.Dispatch implementation; forwarding events only after the `valid` edge; the `invalid` edge is followed by exactly bad.Add×1, numInvalid.Inc×1 and return", Run: c02r1},
@@ -30,6 +30,7 @@ func init() {
 			{ID: "C02.R3", Min: 8, Doc: "level-name tables: map literal entries key ↔ constant name, pointer receiver and store into l.Level, agreement with docs/validation.md, defaults", Run: c02r3},
 			{ID: "C02.R4", Min: 1, Doc: "IncNumInvalid: numIn.Inc and numInvalid.Inc exactly once on every path", Run: c02r4},
 			{ID: "C02.R5", Min: 3, Doc: "bad-metrics report: Add builds Record{name, rejected text, reason, now} from its parameters; manage stores each received record under its own name; records are only expired when older than maxAge", Run: c02r5},
+			{ID: "C02.R6", Min: 1, Doc: "the configured validation levels survive table changes: no TableConfig value is assembled field by field with fields left out — a copy that forgets Validation_level_legacy / Validation_level_m20 validates at the zero level (strict) after the next runtime change (rule C19.R5 evaluated for this property as well)", Run: checkTableConfigLiterals},
 		},
 	})
 }
@@ -190,54 +191,88 @@ func c02r2(c *Check) {
 	})
 }
 
-// levelTable extracts the map literal of an UnmarshalText method: key -> constant name.
-func levelTable(p *Prog, recvType string) (map[string]string, *ast.FuncDecl) {
-	pkg := p.Pkg("validate")
-	for _, f := range pkg.Syntax {
-		for _, d := range f.Decls {
-			fd, ok := d.(*ast.FuncDecl)
-			if !ok || fd.Name.Name != "UnmarshalText" || fd.Recv == nil {
-				continue
+// levelTable resolves the name table an UnmarshalText method consults: the map whose lookup result is the
+// level it stores — a map literal built in the method (or a helper of the package) or a package-level
+// variable initialised with one — as key -> name of the declared constant stored under it.
+func levelTable(p *Prog, recvType string) (map[string]string, *ssa.Function) {
+	fn := p.Func("validate", "*"+recvType, "UnmarshalText")
+	var levelT types.Type
+	if st, ok := p.Named("validate", recvType).Underlying().(*types.Struct); ok {
+		for i := 0; i < st.NumFields(); i++ {
+			if st.Field(i).Name() == "Level" {
+				levelT = st.Field(i).Type()
 			}
-			rt := fd.Recv.List[0].Type
-			if st, ok := rt.(*ast.StarExpr); ok {
-				rt = st.X
-			}
-			if id, ok := rt.(*ast.Ident); !ok || id.Name != recvType {
-				continue
-			}
-			out := map[string]string{}
-			ast.Inspect(fd.Body, func(n ast.Node) bool {
-				cl, ok := n.(*ast.CompositeLit)
-				if !ok {
-					return true
-				}
-				if _, isMap := pkg.TypesInfo.TypeOf(cl).Underlying().(*types.Map); !isMap {
-					return true
-				}
-				for _, e := range cl.Elts {
-					kv := e.(*ast.KeyValueExpr)
-					tv := pkg.TypesInfo.Types[kv.Key]
-					if tv.Value == nil {
-						continue
-					}
-					key := strings.Trim(tv.Value.ExactString(), "\"")
-					var name string
-					switch v := kv.Value.(type) {
-					case *ast.SelectorExpr:
-						name = v.Sel.Name
-					case *ast.Ident:
-						name = v.Name
-					}
-					out[key] = name
-				}
-				return false
-			})
-			return out, fd
 		}
 	}
-	anchorFail("validate.%s.UnmarshalText not found", recvType)
-	return nil, nil
+	if levelT == nil {
+		anchorFail("validate.%s has no field Level", recvType)
+	}
+	var tables []ssa.Value
+	for _, f := range samePkgCallees(p, fn) {
+		allInstrs(f, func(in ssa.Instruction) {
+			lk, ok := in.(*ssa.Lookup)
+			if !ok {
+				return
+			}
+			if mt, isMap := lk.X.Type().Underlying().(*types.Map); isMap && types.Identical(mt.Elem(), levelT) {
+				tables = append(tables, lk.X)
+			}
+		})
+	}
+	if len(tables) == 0 {
+		anchorFail("validate.%s.UnmarshalText: no lookup in a table of level names found", recvType)
+	}
+	out := map[string]string{}
+	addEntries := func(m ssa.Value) {
+		for _, r := range *m.Referrers() {
+			mu, ok := r.(*ssa.MapUpdate)
+			if !ok || mu.Map != m {
+				continue
+			}
+			kc, ok := mu.Key.(*ssa.Const)
+			if !ok || kc.Value == nil {
+				anchorFail("validate.%s.UnmarshalText: level table with a computed key", recvType)
+			}
+			name := "?"
+			if vc, ok := mu.Value.(*ssa.Const); ok && vc.Value != nil {
+				name = constName(p, vc)
+			}
+			out[strings.Trim(kc.Value.ExactString(), "\"")] = name
+		}
+	}
+	for _, t := range tables {
+		switch x := strip(t).(type) {
+		case *ssa.MakeMap:
+			addEntries(x)
+		case *ssa.UnOp:
+			g, isG := x.X.(*ssa.Global)
+			if !isG {
+				anchorFail("validate.%s.UnmarshalText: level table %s not resolved", recvType, describeVal(t))
+			}
+			// a package-level table: what is stored into the variable, and every update of it, anywhere
+			for _, f := range p.Funcs {
+				allInstrs(f, func(in ssa.Instruction) {
+					switch y := in.(type) {
+					case *ssa.Store:
+						if y.Addr == ssa.Value(g) {
+							mm, ok := strip(y.Val).(*ssa.MakeMap)
+							if !ok {
+								anchorFail("validate.%s.UnmarshalText: level table variable %s assigned something else than a map literal", recvType, g.Name())
+							}
+							addEntries(mm)
+						}
+					case *ssa.UnOp:
+						if y.X == ssa.Value(g) && y.Op == token.MUL {
+							addEntries(y)
+						}
+					}
+				})
+			}
+		default:
+			anchorFail("validate.%s.UnmarshalText: level table %s not resolved", recvType, describeVal(t))
+		}
+	}
+	return out, fn
 }
 
 // docTable parses the first markdown table after a heading line containing `heading`.
@@ -296,8 +331,8 @@ func docLevels(file, heading string) (levels []string, def string, reserved []st
 func c02r3(c *Check) {
 	type spec struct{ typ, suffix, docHeading, cfgField string }
 	for _, sp := range []spec{{"LevelLegacy", "Legacy", "standard carbon key", "Validation_level_legacy"}, {"LevelM20", "M20", "metrics2.0", "Validation_level_m20"}} {
-		tbl, fd := levelTable(c.P, sp.typ)
-		pos := c.P.Pos(fd.Pos())
+		tbl, fn := levelTable(c.P, sp.typ)
+		pos := c.AtFn(fn)
 		var keys []string
 		for k := range tbl {
 			keys = append(keys, k)
@@ -308,7 +343,6 @@ func c02r3(c *Check) {
 			c.Judge(tbl[k] == want, fmt.Sprintf("validate.%s name %q ↔ %s", sp.typ, k, want), pos, "name maps to the constant of the same name", fmt.Sprintf("level name %q is mapped to %s instead of %s: the configured level is not the one applied", k, tbl[k], want))
 		}
 		// pointer receiver + store into Level
-		fn := c.P.Func("validate", "*"+sp.typ, "UnmarshalText")
 		_, isPtr := fn.Params[0].Type().(*types.Pointer)
 		stores := false
 		allInstrs(fn, func(in ssa.Instruction) {
